@@ -51,6 +51,7 @@ type UPtr struct{ p Value }
 type Str struct {
 	s     string
 	b     []*Term
+	tok   *StrTok // abstract structured string (address printed from symbolic bytes)
 	opq   bool  // content unknown (formatted from symbolic operands); only flows into sinks
 	taint uint8 // bitmask of taint sources (C17: client address)
 }
@@ -63,7 +64,7 @@ func (s Str) Len() int {
 }
 
 func (s Str) Concrete() (string, bool) {
-	if s.opq {
+	if s.opq || s.tok != nil {
 		return "", false
 	}
 	if s.b == nil {
